@@ -384,8 +384,10 @@ def correspond(ctx, corr):
                  'by the hooked snapshot with -S and -verif-dump-ast; the Lean model must print the same text; non-trivial = the '
                  'file defines at least one function, distinct = by sha1 of the assembly.  (2) Effect.checkBody and the typing side '
                  'condition are evaluated on every dumped function.  (3) probe programs: each expression/statement form x result '
-                 'type evaluated 1, 9, 100000 times between rsp/x87 probes, chibicc build vs gcc build; non-trivial = a form run '
-                 'more than once, distinct = by type.form.')
+                 'type evaluated 1, 9, 100000 times between rsp/x87 probes (x87 = TOP of the status word), chibicc build vs gcc '
+                 'build, including forms that discard a value while another operand of the type is live (comma, (void), statement '
+                 'expression, for increment inside a binary operator / comparison / argument); non-trivial = a form run more than '
+                 'once, distinct = by type.form.')
     files = [(f, ()) for f in codegen_tie.corpus_files(ctx)]
     ngen = 300 if ctx.thorough else 25
     gen = codegen_tie.generated_files(ctx, ngen)
@@ -471,23 +473,28 @@ MANIFEST = {
                   '(assert(depth == 0), call-alignment parity): all 47 node kinds. rsp/x87 half: every node kind - straight-line kinds '
                   'as an equation for the effect, code with labels (?:, &&, ||, if/for/do/switch/case, goto/labels, break/continue, '
                   'return, statement expressions, CAS, alloca) in a label-height calculus: one (rsp, x87) height per label, every jump '
-                  'and fall-through arrives at it, rsp = 0 at every return, for every function whose jumps stay in their region; the '
-                  'range half (nothing above the frame, at most eight x87 registers) by the executable whole-function check and '
+                  'and fall-through arrives at it, rsp = 0 at every return, for every function whose jumps stay in their region '
+                  '(hypotheses about the tree only); the executable whole-function check is proved sound and complete; the '
+                  'range half (nothing above the frame, at most eight x87 registers) by that check on every emitted function and '
                   'rsp/x87 probes on the implementation',
     'level_note': 'C20_depth_partial / C20_assert hold for every tree whose aggregate argument sizes are not negative (all node kinds; true of every dump). C20_expr_partial / '
                   'C20_expr_balanced_partial / C20_addr_partial / C20_stmt_partial / C20_repeat_partial / C20_one_value_partial / '
                   'C20_call_partial / C20_assert_partial / C20_cast_table are proved for all trees in the decidable scope covE/covA/covS; '
                   'C20_expr_flow_partial / C20_addr_flow_partial / C20_stmt_flow_partial / C20_function_flow_partial cover ALL node '
                   'kinds (scope flowE/flowS/flowFn: jumps stay in their region; evaluated on every dumped function: the whole '
-                  'corpus is inside) and conclude Balanced-or-leaves / FnBalanced (Effect.verify without its range test); the '
-                  'distinctness of the labels made up from count() is proved from the monotone counter, the one hypothesis about '
-                  'the code is that the parser\'s labels occur once each (userDistinct, evaluated on every function); '
-                  'C20_checkBody_sound ties the executable check to the same notion. C20_expr_Statement, C20_stmt_Statement, '
+                  'corpus is inside) and conclude Balanced-or-leaves / FnBalanced (Effect.verify without its range test). No '
+                  'hypothesis about the emitted lines is left: the distinctness of the labels made up from count() is proved from '
+                  'the monotone counter, that of the parser\'s labels (C20_parser_labels_distinct) from treeDistinct - the labels '
+                  'parse.c gave the loops, switches, cases and labelled statements of the TREE are pairwise distinct (decidable, '
+                  'evaluated on every dumped function). The executable whole-function check is sound and COMPLETE: '
+                  'C20_checkBody_sound / _complete / _iff (it accepts exactly the code for which some labelling passes '
+                  'Effect.verify; label heights inferred to a fixpoint, any label graph), C20_checkBody_balanced (FnBalanced code is '
+                  'rejected only with the range complaint), C20_function_check_partial (every function in scope: accepted, or the '
+                  'one complaint is a reachable height out of range). C20_expr_Statement, C20_stmt_Statement, '
                   'C20_function_Statement stay open as stated: false in the known-finding regions (jump out of a statement '
-                  'expression; more than eight long double values live on the x87 stack: kernel-checked counterexamples) and '
-                  'because checkBody\'s three-pass label inference is incomplete (kernel-checked witness); the range half is only '
-                  'checked by Effect.checkBody on every emitted function plus CPU probes. The empty-struct-argument defect is '
-                  'repaired (/repo b298aee): the side condition okN now only says that aggregate sizes are not negative',
+                  'expression; more than eight long double values live on the x87 stack: kernel-checked counterexamples); the range '
+                  'half is only checked by Effect.checkBody on every emitted function plus CPU probes. Repaired defects mirrored: '
+                  'empty struct argument (/repo b298aee), 12-byte all-float struct return (/repo 7826748, in the tie corpus)',
     'technique': 'Lean 4 machine-checked proof; model tied to codegen.c by byte-for-byte assembly text equality on every run',
     'design_ref': 'DESIGN.md section 6, C20',
 }
